@@ -78,13 +78,16 @@ def make_solver():
                       jnp.concatenate([solution0.num_steps[None], solution.num_steps]))
 
     class StubError:
+        # a stateful estimator (as with re-linearisation and Monte-Carlo Jacobians): the state it is handed and the state
+        # it hands back are observed
         def init_error(self):
-            return ()
+            return jnp.asarray(0.0)
 
         def estimate_error_norm(self, state, previous, proposed, *, dt, atol, rtol, damp):
             e = UF("errpow", previous.t, dt)
-            (e, _t, _dt, _a, _r, _d) = PROBE("err", e, previous.t, dt, atol, rtol, damp)
-            return e, state
+            new_state = UF("errstate", state, previous.t, dt)
+            (e, _t, _dt, _a, _r, _d, _si, _so) = PROBE("err", e, previous.t, dt, atol, rtol, damp, state, new_state)
+            return e, new_state
     return StubSolver(), StubError()
 
 
@@ -334,7 +337,8 @@ def _rest(case_id, res, seed, replay_dir, log, run, s, apps, routine, ctrl, clip
         s.push(); s.add(g[i]); reach += str(s.check()) == "sat"; s.pop()
     res["vacuity"]["attempt_sites_reachable"] = f"{reach}/{n}"
     # consecutive attempts at run time: j is the next executed attempt after i
-    succ_viol_rej, succ_viol_acc, succ_viol_state = [], [], []
+    succ_viol_rej, succ_viol_acc, succ_viol_state, succ_viol_est = [], [], [], []
+    est_in = [arg(p, 6) for p in errs]; est_out = [arg(p, 7) for p in errs]
     stepx = dom.ufs.get("stepx")
     for i in range(n):
         for j in range(i + 1, n):
@@ -344,9 +348,12 @@ def _rest(case_id, res, seed, replay_dir, log, run, s, apps, routine, ctrl, clip
             succ_viol_rej.append(z3.And(both, rej, z3.Or(tq[j] != tq[i], dq[j] >= dq[i], xq[j] != xq[i], nsq[j] != nsq[i])))
             succ_viol_acc.append(z3.And(both, z3.Not(rej), z3.Or(tq[j] != tq[i] + dq[i], nsq[j] != nsq[i] + 1)))
             succ_viol_state.append(z3.And(both, z3.Not(rej), xq[j] != stepx(xq[i], tq[i], dq[i])))
+            succ_viol_est.append(z3.And(both, z3.Or(z3.And(rej, est_in[j] != est_in[i]), z3.And(z3.Not(rej), est_in[j] != est_out[i]))))
     oblige("rejected attempt: state untouched and next attempt strictly smaller", z3.Or(succ_viol_rej) if succ_viol_rej else z3.BoolVal(False))
     oblige("time and step count advance only through accepted attempts (err>=1)", z3.Or(succ_viol_acc) if succ_viol_acc else z3.BoolVal(False))
     oblige("accepted attempt promotes exactly the proposed state", z3.Or(succ_viol_state) if succ_viol_state else z3.BoolVal(False))
+    oblige("rejected attempt leaves the error estimator's state untouched; an accepted one promotes the state it produced",
+           z3.Or(succ_viol_est) if succ_viol_est else z3.BoolVal(False))
     oblige("every attempted step is positive", z3.Or([z3.And(g[i], dq[i] <= 0) for i in range(n)]))
     oblige("controller is applied to the attempted step and the estimate of that attempt",
            z3.Or([z3.And(g[i], z3.Or(cin[i] != dq[i], cerr[i] != eq_[i])) for i in range(n)]))
@@ -485,13 +492,15 @@ def concrete_run(case_id, params, errtable, default_err=2.0):
 
     class Err:
         def init_error(self):
-            return ()
+            return jnp.asarray(0.0)
 
         def estimate_error_norm(self, state, previous, proposed, *, dt, atol, rtol, damp):
             e = lookup(float(previous.t), float(dt))
             log_[-1]["err"] = e
             log_[-1]["tols"] = [float(atol), float(rtol), float(damp)]
-            return jnp.asarray(e), state
+            log_[-1]["est_in"] = float(state)
+            log_[-1]["est_out"] = float(state) + 1.0
+            return jnp.asarray(e), state + 1.0
     base = ivpsolve.control_integral if ctrl == "i" else ivpsolve.control_proportional_integral
 
     class Ctl(base):
@@ -526,6 +535,11 @@ def check_log(case_id, params, log_, ts, ns):
             bad.append(("the caller's controller is applied once per attempt", a))
             break
     attempts = [a for a in attempts if "ctrl_in" in a] if all("ctrl_in" in a for a in attempts) else []
+    for a, b in zip(attempts, attempts[1:]):
+        if "est_in" in a and "est_in" in b:
+            want = a["est_in"] if a["err"] < 1 else a["est_out"]
+            if b["est_in"] != want:
+                bad.append(("rejected attempt leaves the error estimator's state untouched; an accepted one promotes the state it produced", a, b))
     for a, b in zip(attempts, attempts[1:]):
         if a["err"] < 1:
             if abs(b["t"] - a["t"]) > tol or not (b["dt"] < a["dt"]) or b["x"] != a["x"] or b["ns"] != a["ns"]:
